@@ -4,7 +4,7 @@
    that meets the keyed-min-priority-queue contract (SchedModel.queue_contract) and ANY family of triggers nft. *)
 From Coq Require Import ZArith List Bool String.
 Require Import QzSched.Gen.Params QzSched.SchedModel QzSched.Registry QzSched.ListQueue QzSched.Triggers
-               QzSched.ApiProofs QzSched.RefineProofs QzSched.ListQueueProofs QzSched.WfProofs QzSched.ExamplesC09.
+               QzSched.ApiProofs QzSched.RefineProofs QzSched.ListQueueProofs QzSched.WfProofs QzSched.ExampleDefs QzSched.ExamplesC09.
 Import ListNotations.
 Open Scope list_scope.
 Open Scope Z_scope.
